@@ -291,7 +291,8 @@ impl Model {
 
     // -------------------------------------------------------------------------------------------
     pub fn on_poll(&mut self, now: u64, reply: &Reply) -> Result<PollOutcome, Violation> {
-        self.last_poll = Some(now);
+        // (instants may arrive out of order: "the latest poll" is the latest by instant)
+        self.last_poll = Some(self.last_poll.map_or(now, |p| p.max(now)));
         // self-consistency with the previous WaitUntil (model-free)
         if let Some((p, t)) = self.last_wait {
             if self.live_count() > 0 {
@@ -641,6 +642,10 @@ impl Model {
             self.invalidate_wait();
         }
         Ok(())
+    }
+    /// what a mutable handle for `tid` reported (None: no handle was handed out)
+    pub fn check_handle_obs(&self, tid: u128, before: Option<SocketAddr>) -> Result<(), Violation> {
+        self.check_handle(tid, self.live_idx(tid).is_some(), &Reply::Handle(before))
     }
     fn check_handle(&self, tid: u128, live: bool, reply: &Reply) -> Result<(), Violation> {
         if live && matches!(reply, Reply::Handle(None)) && self.live_idx(tid).map_or(false, |i| self.in_limbo(i)) {
